@@ -3,7 +3,7 @@ CONSTANTS
   Cfgs <- CfgsC
   Classes <- ClassesCore
   RefuseSets <- RefuseNone
-  MaxRetry = 3
+  MaxRetry = 1
   Dev_NoSkipOnRefusal = FALSE
   Dev_TimeoutNotCounted = FALSE
   Dev_IllegalEndsRun = FALSE
